@@ -16,6 +16,9 @@ DM = "qucumber/nn_states/density_matrix.py"
 PA = "qucumber/observables/pauli.py"
 EN = "qucumber/observables/entanglement.py"
 TS = "qucumber/utils/training_statistics.py"
+OB = "qucumber/observables/observable.py"
+SY = "qucumber/observables/system.py"
+OU = "qucumber/observables/utils.py"
 UN = "qucumber/utils/unitaries.py"
 CX = "qucumber/utils/cplx.py"
 
@@ -173,6 +176,18 @@ MUTANTS = [
     M("c10-nll-mixed-missing-Z", "C10", (TS, "rotate_rho_probs(nn_state, basis, samples[indices == i, :]) / Z", "rotate_rho_probs(nn_state, basis, samples[indices == i, :])")),
     M("c10-kl-dict-mixed-abs", "C10", (TS, "target_probs_r = torch.diagonal(cplx.real(target_rho_r))", "target_probs_r = torch.diagonal(cplx.real(target_rho_r)).roll(1)")),
     M("c10-nll-divides-by-unique-bases", "C10", (TS, "return (NLL_ / float(len(samples))).item()", "return (NLL_ / float(len(samples) if unique_bases.shape[0] < 3 else len(samples) - 1)).item()")),
+    # ---- C13
+    M("c13-floor-draws", "C13", (OB, "        num_time_steps = int(np.ceil(num_samples / num_chains))\n        for i in range(num_time_steps):\n            num_gibbs_steps = burn_in if i == 0 else steps\n\n            chains = nn_state.sample(\n                num_samples=num_chains,\n                k=num_gibbs_steps,\n                initial_state=chains,\n                overwrite=True,\n            )\n\n            sample_stats",
+                                 "        num_time_steps = max(1, int(np.floor(num_samples / num_chains)))\n        for i in range(num_time_steps):\n            num_gibbs_steps = burn_in if i == 0 else steps\n\n            chains = nn_state.sample(\n                num_samples=num_chains,\n                k=num_gibbs_steps,\n                initial_state=chains,\n                overwrite=True,\n            )\n\n            sample_stats")),
+    M("c13-burn-in-every-draw", "C13", (SY, "num_gibbs_steps = burn_in if i == 0 else steps", "num_gibbs_steps = burn_in")),
+    M("c13-restart-every-draw", "C13", (OB, "                initial_state=chains,\n                overwrite=True,\n            )\n\n            sample_stats", "                initial_state=chains if i < 2 else None,\n                overwrite=True,\n            )\n\n            sample_stats")),
+    M("c13-biased-variance", "C13", (OB, "variance, mean = torch.var_mean(obs_samples)", "variance, mean = torch.var_mean(obs_samples, unbiased=False)")),
+    M("c13-delta-len-b-only", "C13", (OU, "new_var += (delta ** 2) * len_a * len_b / float(new_len)", "new_var += (delta ** 2) * len_b * len_b / float(new_len)")),
+    M("c13-f8-regression", "C13", (OU, "scaled_var_b = var_b * (len_b - 1) if len_b > 1 else 0.0", "scaled_var_b = var_b * (len_b - 1)")),
+    M("c13-system-total-before-loop", "C13", (SY, "            for obs_name, obs in self.observables.items():\n                obs_stats", "            total_samples += num_chains if len(self.observables) > 2 else 0\n            for obs_name, obs in self.observables.items():\n                obs_stats")),
+    M("c13-user-chains-always-cloned", "C13", (OB, "chains = initial_state if overwrite else initial_state.clone()\n            num_chains = len(initial_state)\n        else:\n            chains = None\n            num_chains = (\n                min(num_chains, num_samples) if num_chains != 0 else num_samples\n            )\n\n        num_time_steps = int(np.ceil(num_samples / num_chains))\n        for i in range(num_time_steps):\n            num_gibbs_steps = burn_in if i == 0 else steps\n\n            chains = nn_state.sample(\n                num_samples=num_chains,\n                k=num_gibbs_steps,\n                initial_state=chains,\n                overwrite=True,\n            )\n\n            sample_stats",
+                                               "chains = initial_state.clone()\n            num_chains = len(initial_state)\n        else:\n            chains = None\n            num_chains = (\n                min(num_chains, num_samples) if num_chains != 0 else num_samples\n            )\n\n        num_time_steps = int(np.ceil(num_samples / num_chains))\n        for i in range(num_time_steps):\n            num_gibbs_steps = burn_in if i == 0 else steps\n\n            chains = nn_state.sample(\n                num_samples=num_chains,\n                k=num_gibbs_steps,\n                initial_state=chains,\n                overwrite=True,\n            )\n\n            sample_stats")),
+    M("c13-std-error-uses-chains", "C13", (OB, "        std_error = np.sqrt(running_variance / running_length)", "        std_error = np.sqrt(running_variance / max(num_chains, 1))")),
 ]
 
 BENIGN = [
